@@ -152,6 +152,7 @@ func runC04(r *Run, verifDir string) {
 	c.l3JSONStrings()
 	c.l4Units("C04.L4")
 	c.l5Fallbacks()
+	c.l6VectorOrder()
 }
 
 func runC18(r *Run, verifDir string) {
@@ -343,7 +344,7 @@ func (c *lexCtx) l2Base(rule string) {
 
 func (c *lexCtx) l3JSONStrings() {
 	r, p := c.r, c.p
-	r.Rule("C04.L3", "the JSON writer never uses Go-syntax quoting; text strings go through encoding/json", 2)
+	r.Rule("C04.L3", "the JSON writer never uses Go-syntax quoting nor raw insertion of a caller string; text strings go through encoding/json", 3)
 	n := 0
 	for _, fn := range textWriterFuncs(p, "jsonWriter") {
 		allInstrs(fn, func(in ssa.Instruction) {
@@ -415,6 +416,83 @@ func (c *lexCtx) l3JSONStrings() {
 	}
 	if n == 0 {
 		r.OK("C04.L3", "ttlv.jsonWriter/no-go-quote", ts.Pos(), "no strconv.Quote*/AppendQuote*/%%q in the JSON writer")
+	}
+	// no raw insertion of a caller-provided string: the text may only flow into the escaper
+	fromStringParam := func(v ssa.Value) bool {
+		for d := 0; d < 8; d++ {
+			switch x := v.(type) {
+			case *ssa.Parameter:
+				b, ok := x.Type().Underlying().(*types.Basic)
+				return ok && b.Info()&types.IsString != 0
+			case *ssa.FreeVar:
+				if pt, ok := x.Type().Underlying().(*types.Pointer); ok {
+					b, ok := pt.Elem().Underlying().(*types.Basic)
+					return ok && b.Info()&types.IsString != 0
+				}
+				return false
+			case *ssa.UnOp:
+				v = x.X
+			case *ssa.Convert:
+				v = x.X
+			case *ssa.Slice:
+				v = x.X
+			case *ssa.ChangeType:
+				v = x.X
+			case *ssa.Alloc:
+				// spilled parameter
+				found := false
+				for _, ref := range *x.Referrers() {
+					if st, ok := ref.(*ssa.Store); ok && st.Addr == ssa.Value(x) {
+						if prm, ok := st.Val.(*ssa.Parameter); ok {
+							if b, ok := prm.Type().Underlying().(*types.Basic); ok && b.Info()&types.IsString != 0 {
+								found = true
+							}
+						}
+					}
+				}
+				return found
+			default:
+				return false
+			}
+		}
+		return false
+	}
+	var scope []*ssa.Function
+	scope = append(scope, textWriterFuncs(p, "jsonWriter")...)
+	for f := range seen {
+		dup := false
+		for _, g := range scope {
+			if g == f {
+				dup = true
+			}
+		}
+		if !dup {
+			withClosures(f, func(g *ssa.Function) { scope = append(scope, g) })
+		}
+	}
+	nRaw := 0
+	for _, fn := range scope {
+		allInstrs(fn, func(in ssa.Instruction) {
+			call, ok := in.(*ssa.Call)
+			if !ok {
+				return
+			}
+			var arg ssa.Value
+			id := callID(&call.Call)
+			if b, ok := call.Call.Value.(*ssa.Builtin); ok && b.Name() == "append" && len(call.Call.Args) == 2 {
+				arg = call.Call.Args[1]
+			} else if id.pkg == "bytes" && id.recv == "Buffer" && (id.name == "WriteString" || id.name == "Write") {
+				arg = call.Call.Args[1]
+			}
+			if arg == nil || !fromStringParam(arg) {
+				return
+			}
+			nRaw++
+			r.Bad("C04.L3", c.key(fn, "raw-string"), call.Pos(), "%s copies a caller-provided string into the JSON output without escaping: whether a predicate in front of it covers every character that needs escaping (quote, backslash, controls) cannot be established, and a text string containing such a character yields an ill-formed or different document", fnKey(fn))
+		})
+	}
+	if nRaw == 0 {
+		r.OK("C04.L3", "ttlv.jsonWriter/no-raw-string", ts.Pos(), "no caller-provided string reaches the output except through encoding/json (%d functions scanned)", len(scope))
 	}
 }
 
